@@ -392,7 +392,7 @@ class Analyzer(ast.NodeVisitor):
             for g in self.by_name.get(f.attr, ()):
                 if g.cls is None:
                     continue
-                for p in g.mutates:
+                for p in list(g.mutates):
                     if p == 'self':
                         self.store(f.value, c, f'callee {g.qual.split(".", 2)[-1]} mutates self')
                     elif p in g.params:
@@ -405,7 +405,7 @@ class Analyzer(ast.NodeVisitor):
         elif isinstance(f, ast.Name):
             for g in self.by_name.get(f.id, ()):
                 off = 1 if g.cls else 0
-                for p in g.mutates:
+                for p in list(g.mutates):
                     if p in g.params:
                         k = g.params.index(p) - off
                         if 0 <= k < len(c.args):
